@@ -123,7 +123,7 @@ class Runner:
         self.setupfail = {}     # config -> rc
         self.cfg_ok = {}        # config -> count of passes
         self.cfg_n0 = set()     # configs whose N=0 case passed
-        self.stat = {'n0_ok': 0, 'below_short_block_ok': 0, 'mixed_blocks_ok': 0, 'short_after_long_ok': 0, 'mixed_blocks_44k_impulse_ok': 0, 'managed_ok': 0, 'hardmax_ok': 0, 'hardmax_reservoir_full_ok': 0, 'hardmax_reservoir_full_packets': 0,
+        self.stat = {'n0_ok': 0, 'below_short_block_ok': 0, 'mixed_blocks_ok': 0, 'short_after_long_ok': 0, 'mixed_blocks_44k_impulse_ok': 0, 'managed_ok': 0, 'hardmax_ok': 0, 'abr_easy_ok': 0, 'abr_easy_top_blob_ok': 0, 'abr_easy_top_blob_packets': 0, 'managed_bottom_blob_ok': 0, 'hardmax_reservoir_full_ok': 0, 'hardmax_reservoir_full_packets': 0,
                      'multi_audio_page_natural_ok': 0, 'packets': 0, 'max_packets': 0}
         self.ch_ok = {}
         self.bs_seen = {}
@@ -209,6 +209,14 @@ class Runner:
                 s['mixed_blocks_44k_impulse_ok'] += 1
         if m['mode'][0] == 'm':
             s['managed_ok'] += 1
+        if int(f.get('bot', 0)) > 0:
+            s['managed_bottom_blob_ok'] += 1
+        if m['group'].startswith('abr_easy'):
+            s['abr_easy_ok'] += 1
+            tb = int(f.get('top', 0))
+            if tb > 0:
+                s['abr_easy_top_blob_ok'] += 1
+                s['abr_easy_top_blob_packets'] += tb
         if m['group'].startswith('hardmax'):
             s['hardmax_ok'] += 1
             rf = int(f.get('rfull', 0))
@@ -262,6 +270,34 @@ def hardmax_cases(tier):
     return it
 
 
+ABR_NOMINALS = {8000: {1: [8000, 16000, 32000], 2: [16000, 32000, 64000]}, 22050: {1: [32000, 64000, 86000], 2: [32000, 64000, 128000]},
+                44100: {1: [64000, 96000, 128000], 2: [96000, 128000, 256000]}}
+
+
+def abr_easy_cases(tier):
+    """Average-bitrate management (vorbis_encode_init with a nominal rate, alone and with min/max around it) on EASY input: the floater
+    bm->avgfloat slews up to the highest packet blob within a few tenths of a second, so every blob index 0..PACKETBLOBS-1 gets emitted
+    (seed C04r4-2, a top blob that was never encoded, escaped without it).  Full product of the listed domains."""
+    q = tier == 'quick'
+    it = []
+    g = 'abr_easy'
+    for rate in (8000, 22050, 44100):
+        for ch in (1, 2):
+            for nom in ABR_NOMINALS[rate][ch]:
+                modes = [f'm-1,{nom},-1', f'm{nom * 5 // 4},{nom},{nom * 3 // 4}', f'm-1,{nom},{nom // 2}', f'm{nom * 3 // 2},{nom},-1']
+                if not q:
+                    modes.append(f'm{nom},{nom},{nom}')
+                for mode in modes:
+                    it.append(case(rate, ch, mode, 0, 'u1024', 'sil', 'nf3', g))
+                    sigs = [('sil', 'u1024'), ('qtone', 'u1024'), ('ntail', 'u777')]
+                    if not q:
+                        sigs += [('ntail%d' % (rate // 4), 'u4096'), ('ntail%d' % rate, 'u1024'), ('dc', 'u1024')]
+                    for sig, chunk in sigs:
+                        for n in ((5001, 12001, 25001, 50001, 100000, 176400) if q else (5001, 12001, 25001, 50001, 66150, 88201, 100000, 132301, 176400)):
+                            it.append(case(rate, ch, mode, n, chunk, sig, 'nf3' if n == 12001 else 'n', g))
+    return it
+
+
 def plan(tier, probe_bs, reduced={}):
     """Returns the ordered list of (group name, items).  probe_bs: config -> (bs0, bs1) for the configurations that set up.
     thorough = the quick plan (with larger boundary sets) followed by the extra groups, most valuable first, so that a deadline cut loses the tail only."""
@@ -286,8 +322,10 @@ def plan(tier, probe_bs, reduced={}):
             it.append(case(rate, ch, mode, n, 'u511', 'imp%d' % max(0, n - bs1 // 2 - bs0), 'nf3', 'boundary'))
             if tier != 'quick':
                 it.append(case(rate, ch, mode, n, 'u7', 'sine', 'n', 'boundary'))
+    # the two small bitrate-management groups go first so that a deadline never cuts them
+    G.insert(0, ('abr_easy', abr_easy_cases(tier)))
+    G.insert(0, ('hardmax', hardmax_cases(tier)))
     G.append(('boundary', it))
-    G.append(('hardmax', hardmax_cases(tier)))
     # ---- full N sweeps, a few chunkings (both tiers)
     for name, (cfg, combos) in QCOMBOS.items():
         G.append((name, sweep(name, *cfg, NMAX[cfg], combos)))
@@ -406,7 +444,7 @@ def run(tier):
         'stats': R.stat,
         'rule': 'ENUM over (rate, channels, mode, N, piece schedule, signal, page layouts): every N in 0..Nmax for the sweep configs (8 kHz mono 512/512 Nmax 5200, 16 kHz mono 512/1024 Nmax 4200, '
                 '44.1 kHz mono+stereo 256/2048 Nmax 9300; thorough adds 1024/1024, 512/4096, managed and 5.1 sweeps and all chunkings x 5 signals), every 2-part split (a,N-a) for the listed N, '
-                'one-sample pieces, hard-maximum encodes (setup_vbr q + OV_ECTL_RATEMANAGE2_SET max {24,40,64 kbps; 8,12,16 at 8 kHz} x reservoir bits x bias, and vorbis_encode_init max-only, rates {8000,22050,44100} x {1,2} ch, full-scale noise / loud 7-tone mix, N in {3001,12001,12288,40001,...}), boundary sets of N around multiples of short/4 and long/4 for every (rate x {1,2,6} ch x VBR/managed/direct mode) configuration that sets up plus other channel counts (3..255) and the extremes of the rate range (4000..200000 Hz); each case: real encoder -> libogg pages in memory '
+                'one-sample pieces, average-bitrate managed encodes of easy signals (vorbis_encode_init (-1,nom,-1) and with min/max around nom, 3 nominal rates per rates {8000,22050,44100} x {1,2} ch, silence / 0.01 tone / 0.5 s loud noise then quiet tail, N in {5001,12001,25001,50001,100000,176400}), hard-maximum encodes (setup_vbr q + OV_ECTL_RATEMANAGE2_SET max {24,40,64 kbps; 8,12,16 at 8 kHz} x reservoir bits x bias, and vorbis_encode_init max-only, rates {8000,22050,44100} x {1,2} ch, full-scale noise / loud 7-tone mix, N in {3001,12001,12288,40001,...}), boundary sets of N around multiples of short/4 and long/4 for every (rate x {1,2,6} ch x VBR/managed/direct mode) configuration that sets up plus other channel counts (3..255) and the extremes of the rate range (4000..200000 Hz); each case: real encoder -> libogg pages in memory '
                 '(layouts n=pageout, f=flush per packet, 3=flush per 3 packets) -> packet-API decode, vorbisfile seekable, vorbisfile streaming; oracle = construction (N). '
                 'distinct_nontrivial = number of distinct (config, N mod long/4, chunking class, signal kind) among passing cases with N>0',
         'samples': R.samples,
@@ -426,6 +464,10 @@ def run(tier):
     # coverage facts are demanded of the groups that ran to completion (a deadline cut is reported as exhaustive:false, not as a broken check)
     if done('probe_N0'):
         chk.guard(set(R.cfg_ok) <= R.cfg_n0 and len(R.cfg_n0) >= 20, 'N=0 passed for every configuration that sets up')
+    if done('abr_easy'):
+        chk.guard(s['abr_easy_ok'] >= 1000, 'average-bitrate managed encodes of easy signals covered')
+        chk.guard(s['abr_easy_top_blob_ok'] >= 300, 'rate manager reached the highest packet blob in at least 300 passing cases')
+        chk.guard(s['managed_bottom_blob_ok'] >= 100, 'rate manager reached the lowest packet blob in at least 100 passing cases')
     if done('hardmax'):
         chk.guard(s['hardmax_ok'] >= 1000, 'hard-maximum (RATEMANAGE2 / max-only) encodes covered')
         chk.guard(s['hardmax_reservoir_full_ok'] >= 300, 'hard-maximum reservoir driven to full (blob down-selection / frame truncation regime) in at least 300 passing cases')
